@@ -256,6 +256,7 @@ type alphabetConfig struct {
 	UntaggedToo       bool
 	Tags              []string // nil = all tags of the universe
 	CancelAfterCommit bool     // Cancel on a committed session only (documented no-op), for stacks where FinishedOps is off
+	SelfMounts        bool     // also mounts from a repository into itself
 	FinishedOps       bool     // also resume/write/cancel on committed or cancelled upload sessions
 	ExplicitIDs       bool     // also start upload sessions under one caller-chosen ID in each repository
 	BadNames          []string // extra (hostile) repository names used for pushes, mounts and deletes
@@ -327,6 +328,12 @@ func (u *universe) staticOps(c alphabetConfig) []Op {
 			ops = append(ops, Op{K: "Mount", From: repos[0], Repo: repos[1], B: b}, Op{K: "Mount", From: repos[1], Repo: repos[0], B: b})
 		}
 		ops = append(ops, Op{K: "Mount", From: "unknown", Repo: repos[0], B: 1})
+	}
+	if c.Mounts && c.SelfMounts {
+		// a mount whose source is its destination: a write like any other mount
+		for _, b := range c.Blobs {
+			ops = append(ops, Op{K: "Mount", From: repos[0], Repo: repos[0], B: b})
+		}
 	}
 	if c.Deletes {
 		for _, r := range repos {
